@@ -52,8 +52,19 @@ def place_lid(node):
 
 
 def p_read_exact(I, n, path, arg_nodes, env):
-    I.eval(arg_nodes[0], env)
+    rdr = I.eval(arg_nodes[0], env)
     lid = place_lid(arg_nodes[1])
+    if rdr[0] not in ("in", "take") and lid is not None:
+        # reading from an in-memory byte slice (a sub-reader): consume successive bytes of that term, no wire event
+        size = size_of_type(core.strip(arg_nodes[1]).get("ty"))
+        if size is None or size[0] != "c":
+            raise Unsupported("sub-reader with a non-constant read size")
+        if not hasattr(I, "subpos"):
+            I.subpos = {}
+        pos = I.subpos.get(rdr, 0)
+        I.subpos[rdr] = pos + size[1]
+        env[lid] = ("slice", rdr, pos, size[1])
+        return var(OK, UNIT)
     cur = I.eval(arg_nodes[1], env)
     size = size_of_type(core.strip(arg_nodes[1]).get("ty"))
     if size is None:
